@@ -7,7 +7,7 @@ MCAccounts == IF Thorough THEN {"a1", "a2", "a3", "a4"} ELSE {"a1", "a2", "a3"}
 
 MCInit == {BaseState}
 
-NewHolders == MCAccounts \cup {"GARBAGE"}
+NewHolders == MCAccounts \cup {"GARBAGE", "EMPTY_PAYLOAD"} \cup (IF Thorough THEN {"LONG_PAYLOAD", "BAD_CHECKSUM"} ELSE {})
 
 AdminMsgs(from) ==
        [type : {"UpdateOwner", "UpdateAttesterManager", "UpdatePauser", "UpdateTokenController"},
